@@ -235,13 +235,19 @@ struct TETL_TRIVIAL_ABI inplace_vector {
     constexpr auto pop_back() -> void
     {
         TETL_PRECONDITION(not empty());
-        etl::ranges::destroy_at(etl::addressof(back()));
+        // a trivially destructible element is not destroyed: ending its lifetime would make the storage unreadable
+        // for the defaulted (trivial) copy operations in constant evaluation
+        if constexpr (not etl::is_trivially_destructible_v<T>) {
+            etl::ranges::destroy_at(etl::addressof(back()));
+        }
         unsafe_set_size(size() - 1U);
     }
 
     constexpr auto clear() noexcept -> void
     {
-        etl::ranges::destroy(*this);
+        if constexpr (not etl::is_trivially_destructible_v<T>) {
+            etl::ranges::destroy(*this);
+        }
         unsafe_set_size(0);
     }
 
